@@ -97,9 +97,14 @@ func (h *Handler) handleDiscover(p packet.DHCP4, options packet.DHCP4Options) (d
 
 	// Client can send another discovery after the entry expiry
 	// Free the entry so that a new IP is generated.
+	revoked := lease.State == StateAllocated
 	lease.State = StateDiscover
 	lease.XID = packet.CopyBytes(p.XId())
 	lease.OfferExpiry = now.Add(time.Second * 5)
+	if revoked {
+		// the acknowledged binding is revoked until the client selects again: the lease file must not keep it
+		h.saveConfig(h.filename)
+	}
 
 	// Offer options
 	opts := lease.subnet.CopyOptions()
